@@ -59,6 +59,20 @@ def run(report: Report, tier, seed):
         contract="observable outcome, empty stack at exit and final contents of user-numbered slots identical for all settings (each equals the description's meaning)",
         bound=f"{len(specs)} (program, version) pairs from {len({s['seed'] for s in specs})} generated programs (seed {seed}) x all option pairs x 2 contexts",
         cases=ran, distinct_nontrivial=nontrivial, failures=len(fails) + len(known)))
+    # ABI subroutines (by-reference parameters, output keyword): the same generated signature under every option setting of its version
+    from . import abisub
+    from .abi_e2e import pool_map
+    aj = []
+    for (sd, v, _o) in abisub.jobs(tier, seed + 5)[: (40 if tier == "quick" else 400)]:
+        for o in ([None, {"scratch_slots": True}, {"scratch_slots": False}] + ([{"frame_pointers": True}, {"frame_pointers": False}, {"frame_pointers": False, "scratch_slots": False}] if v >= 8 else [])):
+            aj.append((sd, v, o))
+    ar = pool_map(abisub.case, aj)
+    abad = [r for r in ar if r["problems"]]
+    report.bounded.append(Bounded(function="ABIReturnSubroutine calls under every option setting", contract="each setting behaves as the description (hence all settings alike); stack and frame discipline hold",
+                                  bound=f"{len(aj)} (signature, version, option setting) triples", cases=sum(r["ran"] for r in ar), distinct_nontrivial=len(aj), failures=len(abad)))
+    for b in abad[:1]:
+        report.violation(Violation(key=f"abisub:{b['seed']}:{b['version']}:{b['opts']}", what=f"ABI subroutine under options {b['opts']} at v{b['version']}: {b['problems'][0]}"[:400],
+                                   replay={"abisub": [b["seed"], b["version"], b["opts"]]}, confirmed_native=True))
     from . import opt_scenarios
     from concurrent.futures import ProcessPoolExecutor
     sj = opt_scenarios.jobs(tier)
@@ -104,6 +118,11 @@ def run(report: Report, tier, seed):
 def replay(data):
     r = data.get("replay") or {}
     nat = r.get("native") or r
+    if "abisub" in r:
+        from . import abisub
+        out = abisub.case(tuple(r["abisub"]))
+        print(out["problems"][:2])
+        return 1 if out["problems"] else 0
     if "scenario" in r:
         from . import opt_scenarios
         out = opt_scenarios.case(tuple(r["scenario"]))
